@@ -3,6 +3,7 @@ package main
 import (
 	"fmt"
 	"go/constant"
+	"go/token"
 	"go/types"
 	"math/big"
 	"strings"
@@ -387,7 +388,7 @@ func (env *Env) lookupSource(name string) (Val, bool) {
 		}
 		for _, fv := range fr.fn.FreeVars {
 			if fv.Name() == name {
-				return env.valOfSSA(fv, true), true
+				return env.valOfSSA(fv, fvIsAddr(fv)), true
 			}
 		}
 		if env.atBlock == nil {
@@ -425,10 +426,38 @@ func (env *Env) lookupSource(name string) (Val, bool) {
 	}
 	for _, fv := range fr.fn.FreeVars {
 		if fv.Name() == name {
-			return env.valOfSSA(fv, true), true
+			return env.valOfSSA(fv, fvIsAddr(fv)), true
 		}
 	}
 	return Val{}, false
+}
+
+// fvIsAddr reports whether a free variable holds the address of the captured variable (captured by reference) rather
+// than its value: by-reference captures are only ever loaded from or stored to.
+func fvIsAddr(fv *ssa.FreeVar) bool {
+	refs := fv.Referrers()
+	if refs == nil || len(*refs) == 0 {
+		return false
+	}
+	for _, r := range *refs {
+		switch r := r.(type) {
+		case *ssa.UnOp:
+			if r.Op != token.MUL {
+				return false
+			}
+		case *ssa.Store:
+			if r.Addr != ssa.Value(fv) {
+				return false
+			}
+		case *ssa.DebugRef:
+		case *ssa.MakeClosure:
+		default:
+			return false
+		}
+	}
+	// a pointer-to-struct value that is only dereferenced as a whole is indistinguishable; prefer "value" for pointers to
+	// named struct types used through field selection elsewhere
+	return true
 }
 
 func debugRefName(d *ssa.DebugRef) string {
@@ -898,6 +927,11 @@ func (env *Env) evalCall(e *SCall) (Val, error) {
 				return Val{}, err
 			}
 			return Val{T: Term{fmt.Sprintf("(old_alloc %s)", x.T.S), SBool}}, nil
+		case "nolocks":
+			// nolocks(): this goroutine holds no mutex (ghost lock state)
+			w := env.st.Get("ghost_LockW", arraySort(SInt, SBool))
+			r := env.st.Get("ghost_LockR", arraySort(SInt, SBool))
+			return Val{T: Term{fmt.Sprintf("(forall ((m Int)) (and (not (select %s m)) (not (select %s m))))", w.S, r.S), SBool}}, nil
 		case "held", "rheld":
 			x, err := env.eval(e.Args[0])
 			if err != nil {
